@@ -13,7 +13,7 @@
 #include "c18_core.h"
 
 #define MAXV 40
-#define SUSPECT_CAP 200000u
+#define SUSPECT_CAP 2000000u
 
 struct viol { char key[160]; char msg[400]; struct kase k; };
 struct res {
@@ -79,9 +79,21 @@ static void suspect(struct res *r, const struct kase *k)
 	}
 	struct viol nv;
 	memset(&nv, 0, sizeof(nv));
+	nv.k = *k;
+	if (k->ncuts) {
+		/* same string fails when presented whole: it is that class, not a chunking failure */
+		struct kase w = *k;
+		w.ncuts = 0;
+		w.cuts[0] = w.cuts[1] = 0;
+		run_case(&w, &o2);
+		if (o2.violated) {
+			run_case(&w, &o1);
+			if (!o1.violated || strcmp(o1.key, o2.key)) { res_error(r, "case did not reproduce: %s", o2.key); return; }
+			nv.k = w;
+		}
+	}
 	snprintf(nv.key, sizeof(nv.key), "%s", o1.key);
 	snprintf(nv.msg, sizeof(nv.msg), "%s", o1.msg);
-	nv.k = *k;
 	res_add_viol(r, &nv);
 }
 
